@@ -20,6 +20,15 @@
 (*         an injected fault)                                               *)
 (*         [ev |-> "final", c |-> length class of the final entry or -1,   *)
 (*          junk |-> number of left-over temp files]                       *)
+(* Every event of a writer carries  p |-> which process did it  (two        *)
+(* writers of the same key are interleaved: while writer 1 is inside its    *)
+(* write, the source changes and writer 2 -- another environment with its   *)
+(* own cache object on the same directory -- loads and stores the entry),   *)
+(* "create" also  name |-> the temporary file's name (numbered in order of  *)
+(* first appearance in the trace)  and  tag |-> the source version the      *)
+(* writer compiled;  "final" with c = 6 also  tag |-> the version BOTH the  *)
+(* stored checksum and the stored code belong to (0 when they disagree:     *)
+(* no state of BCCacheWrite.tla has such an entry).                         *)
 (* Many traces per TLC run: `tid` picks the trace, `i` walks it.           *)
 (***************************************************************************)
 EXTENDS BCCacheWrite, Integers, Sequences, Json, IOUtils
@@ -28,10 +37,9 @@ Traces == JsonDeserialize(IOEnv.TRACE_FILE)
 
 VARIABLES tid, i, faulted
 
-tvars == <<final, temp, pc, junk, seen, tid, i, faulted>>
+tvars == <<final, temp, pc, tname, left, seen, tid, i, faulted>>
 
-P == CHOOSE p \in Procs : TRUE
-T == CHOOSE t \in Tags : TRUE
+P == Traces[tid][i].p
 
 HasEv == i <= Len(Traces[tid])
 Ev == Traces[tid][i]
@@ -43,7 +51,7 @@ TInit == Init /\ tid \in 1..Len(Traces) /\ i = 1 /\ faulted = FALSE
 
 TNext ==
     /\ HasEv
-    /\ \/ Ev.ev = "create" /\ CreateTemp(P, T) /\ Consume
+    /\ \/ Ev.ev = "create" /\ CreateTemp(P, Ev.tag, Ev.name) /\ Consume
        \/ Ev.ev = "write" /\ pc[P] = "open" /\ temp[P].len < Ev.c /\ Write(P) /\ Internal
        \/ Ev.ev = "write" /\ pc[P] = "open" /\ temp[P].len = Ev.c /\ Same /\ Consume
        \/ Ev.ev \in {"rename", "rename-failed"} /\ CloseTemp(P) /\ Internal
@@ -56,8 +64,9 @@ TNext ==
        \/ Ev.ev = "loaded" /\ pc[P] = "idle" /\ Same /\ i' = i + 1 /\ faulted' = FALSE /\ UNCHANGED tid
        \/ Ev.ev = "raised" /\ faulted /\ pc[P] = "idle" /\ Same /\ i' = i + 1 /\ faulted' = FALSE /\ UNCHANGED tid
        \/ /\ Ev.ev = "final"
-          /\ pc[P] = "idle"
-          /\ IF Ev.c < 0 THEN final = None ELSE final # None /\ final.len = Ev.c
+          /\ \A p \in Procs : pc[p] = "idle"
+          /\ IF Ev.c < 0 THEN final = None
+                         ELSE final # None /\ final.len = Ev.c /\ (Ev.c = 6 => final.tag = Ev.tag)
           /\ junk = Ev.junk
           /\ Same /\ Consume
 
